@@ -34,7 +34,7 @@ REGISTRY = {
 
 
 # further Props files holding theorems of a property
-EXTRA_PROPS = {'C11': ['C11H']}
+EXTRA_PROPS = {'C11': ['C11H'], 'C03': ['C03X']}
 
 
 def main():
